@@ -28,7 +28,7 @@ RULE = ("modules of 3..6 doctests drawn from 14 body kinds (bind / read a shared
         "error, emit a warning, fail after unmatched output, fail by output, env-switch dependent output/exception/want); "
         "directed histories first (every doctest twice on the same object; every switch-dependent doctest with the switch "
         "A then B and B then A on the same object; every ordered pair), then random histories (length <= 6 quick, <= 20 "
-        "thorough) mixing re-used and freshly parsed objects; per module the session's default directive state (what --options builds) is empty or one of three harmless non-empty ones, handed as ONE dict to every doctest of a history like the front ends do.  One evaluation = one run inside a history compared with its "
+        "thorough) mixing re-used and freshly parsed objects; per module the session's default directive state (what --options builds) is empty or one of five harmless non-empty ones (flags, an empty REQUIRES set), handed as ONE dict to every doctest of a history like the front ends do.  One evaluation = one run inside a history compared with its "
         "fresh-process baseline.  Non-trivial = the run is preceded by at least one other run in its history; distinct by "
         "(module source, history prefix) hash")
 ASSUMPTIONS = [
@@ -108,7 +108,17 @@ def load(path, run_config=None):
 
 # default directive states as a front end builds them from --options (DoctestConfig._populate_from_cli): harmless for
 # every body kind, but not empty
-SESSION_OPTIONS = [None, None, {'IGNORE_WHITESPACE': True}, {'REPORT_CDIFF': False}, {'NORMALIZE_REPR': True, 'SKIP': False}]
+SESSION_OPTIONS = [None, None, {'IGNORE_WHITESPACE': True}, {'REPORT_CDIFF': False}, {'NORMALIZE_REPR': True, 'SKIP': False},
+                   {'REQUIRES': []}, {'REQUIRES': [], 'IGNORE_WHITESPACE': True}]
+# ('REQUIRES': [] stands for the empty set of unmet conditions that --options=+REQUIRES(<met condition>) builds)
+
+
+def session_state(options):
+    """a fresh default_runtime_state dict as a front end would build it"""
+    d = dict(options)
+    if 'REQUIRES' in d:
+        d['REQUIRES'] = set(d['REQUIRES'])
+    return d
 
 
 def observe(e, sw):
@@ -153,7 +163,7 @@ def baseline_main(path, options_json='null'):
                 try:
                     os.close(r)
                     if options is not None:
-                        e.config.update({'default_runtime_state': dict(options)})
+                        e.config.update({'default_runtime_state': session_state(options)})
                     # a fresh object in a process in which nothing ran before
                     ob = observe(e, sw)
                     with os.fdopen(w, 'w') as f:
@@ -221,7 +231,7 @@ def check_module(ctx, idx, seed):
         for hname, hist in histories:
             # every history starts from freshly parsed objects; the module stays imported (that is the point).
             # One history = one session: every doctest in it gets the session's one config object
-            run_config = None if options is None else {'default_runtime_state': dict(options)}
+            run_config = None if options is None else {'default_runtime_state': session_state(options)}
             objs = {e.callname: e for e in load(path, run_config)}
             ok = True
             for step, (name, sw, fresh) in enumerate(hist):
@@ -243,7 +253,7 @@ def check_module(ctx, idx, seed):
                     diag['namespace_empty_after_run'] = not bool(e.global_namespace)
                     diag['default_state_pristine'] = (getattr(directive, 'DEFAULT_RUNTIME_STATE', None) == pristine)
                     if run_config is not None:
-                        diag['session_default_state_unchanged'] = (run_config['default_runtime_state'] == options)
+                        diag['session_default_state_unchanged'] = (run_config['default_runtime_state'] == session_state(options))
                 except Exception:
                     pass
                 if ob != exp:
